@@ -9,7 +9,7 @@ checks="${@:-C01 C02 C03 C04 C05 C06 C07 C08 C09 C10 C11 C12 C13 C14 C15 C16 C17
 HERE="$(cd "$(dirname "$0")/.." && pwd)"
 wt=/tmp/cw_$name; out=/tmp/canary_$name
 rm -rf $wt $out; mkdir -p $out
-git -C /repo worktree add -q --detach $wt HEAD || exit 3
+git -C /repo worktree prune; git -C /repo worktree add -q --detach $wt HEAD || exit 3
 if [ "$patch" != "-" ]; then git -C $wt apply "$patch" || { echo "$name: patch does not apply"; git -C /repo worktree remove --force $wt; exit 3; }; fi
 alarm=0
 for c in $checks; do
